@@ -206,6 +206,18 @@ class SimSocket:
             self._tx_broken = True
             self._inflight -= n
             return n
+        seg = net.max_segment
+        if seg and n > seg and peer.on_bytes is None:
+            # the stream reaches the receiver in several TCP segments (cut points chosen by the seeded net PRNG)
+            pos = 0
+            while pos < n:
+                m = min(n - pos, net.rng.randrange(1, seg + 1))
+                t = max(self._last_deliver, k.now + net.delay())
+                self._last_deliver = t
+                k.schedule_at(t, self._deliver, peer, chunk[pos:pos + m])
+                pos += m
+                k.fault("segmented_delivery")
+            return n
         t = max(self._last_deliver, k.now + net.delay())
         self._last_deliver = t
         k.schedule_at(t, self._deliver, peer, chunk)
